@@ -202,7 +202,7 @@ def parse_vc(path):
                 raise SystemExit("%s:%d: bad closure" % (path, ln))
             cur = dict(kind="closure", fn=m.group(1), anchor=m.group(2), nth=int(m.group(3) or 1), line=ln)
         elif d == "subst":
-            cur = dict(kind="subst", scope=parts[1], opt=("opt" in parts[2:]), line=ln)
+            cur = dict(kind="subst", scope=parts[1], opt=("opt" in parts[2:]), ws=("ws" in parts[2:]), line=ln)
         elif d == "canary":
             cur = dict(kind="canary", fn=parts[1], line=ln)
         elif d == "verus":
@@ -536,9 +536,15 @@ def apply_substs(u, fnpath, text, log):
     for s in u.substs:
         if s["scope"] != "*" and s["scope"] != fnpath:
             continue
-        c = text.count(s["frm"])
+        if s.get("ws"):
+            # option `ws`: the from-text is matched as a token sequence, whatever the white space between the tokens
+            pat = re.compile(r"\s*".join(re.escape(t.text) for t in lex(s["frm"])))
+            text, c = pat.subn(lambda m: s["to"], text)
+        else:
+            c = text.count(s["frm"])
+            if c:
+                text = text.replace(s["frm"], s["to"])
         if c:
-            text = text.replace(s["frm"], s["to"])
             s["count"] += c
             log.append(("subst", fnpath, "%s x%d" % (vctag(u, s["line"]), c)))
     return text
